@@ -228,7 +228,8 @@ type State struct {
 
 type watchDecl struct {
 	name string
-	t    types.Type // struct type of the object (field names for reports)
+	t    types.Type     // struct type of the object (field names for reports)
+	skip map[int32]bool // fields left out (vhUnwatch): ordered by something other than a lock, stated in the harness
 }
 
 // eraserRec is the lockset state of one watched location (Savage et al., Eraser): exclusive to its first goroutine,
